@@ -31,12 +31,13 @@ type Prog struct {
 type Gen func(yield func(p *Prog))
 
 type progRunner struct {
-	r       *harness.Run
-	prop    string
-	setupM  func(in *luaref.Interp)
-	extraI  func(m *glrun.Impl)
-	opts    lua.Options
-	perProg func(w *progWorker, p *Prog, src string, mo glrun.MOutcome, o glrun.Outcome) // extra oracle, optional
+	r         *harness.Run
+	prop      string
+	setupM    func(in *luaref.Interp)
+	extraI    func(m *glrun.Impl)
+	opts      lua.Options
+	sigPrefix string                                                                       // prepended to violation signatures (families run under several configurations)
+	perProg   func(w *progWorker, p *Prog, src string, mo glrun.MOutcome, o glrun.Outcome) // extra oracle, optional
 }
 
 type progWorker struct {
@@ -113,9 +114,9 @@ func (pr *progRunner) one(w *progWorker, p *Prog) {
 		c2, _ := glrun.Compare(mo, o2)
 		switch {
 		case c1 != "" && c1 == c2:
-			r.Violation(p.Family+"/"+p.Shape+"/"+c1, d1+"\nprogram:\n"+src, map[string]interface{}{"family": p.Family, "shape": p.Shape, "program": src, "difference": d1})
+			r.Violation(pr.sigPrefix+p.Family+"/"+p.Shape+"/"+c1, d1+"\nprogram:\n"+src, map[string]interface{}{"family": p.Family, "shape": p.Shape, "program": src, "difference": d1})
 		case c1 == "" && c2 == "":
-			r.Violation(p.Family+"/"+p.Shape+"/history-dependent/"+class, "differs only on a reused interpreter state (after earlier programs): "+diff+"\nprogram:\n"+src, map[string]interface{}{"family": p.Family, "shape": p.Shape, "program": src, "difference": diff, "note": "reproduces only after earlier programs ran on the same LState"})
+			r.Violation(pr.sigPrefix+p.Family+"/"+p.Shape+"/history-dependent/"+class, "differs only on a reused interpreter state (after earlier programs): "+diff+"\nprogram:\n"+src, map[string]interface{}{"family": p.Family, "shape": p.Shape, "program": src, "difference": diff, "note": "reproduces only after earlier programs ran on the same LState"})
 		default:
 			harness.Fatal("nondeterministic outcome for program:\n%s\nfirst: %s %s\nfresh1: %s\nfresh2: %s", src, class, diff, c1, c2)
 		}
